@@ -8,6 +8,29 @@ NOTE = ("Trusted: Lean 4.33 kernel (axioms per theorem audited, allowed propext/
 CORR = ("Correspondence: Tie A certificates (every reachable state x 256 bytes x both anchorings of every real build, checked by the "
         "Lean-proved certOk against the ideal automaton / the noncontiguous NFA) and Tie B differential lines (harness vs acdrv).")
 CHECKS = {
+ "C11": ("proof",
+         "Finite facts over all 256 bytes by complete kernel evaluation (C11_fold_*, C11_opp_*: exactly A-Z/a-z fold, everything else "
+         "fixed); tryFindFwd_comap: the case-insensitive searcher (automaton of folded patterns fed folded bytes) equals the search of "
+         "the folded haystack, hence C11_find_{std,ll,lf} / C11_overlap_std: it returns the specification's answer with 'occurrence' "
+         "read after folding both sides; C11_ids: ids and lengths are those of the supplied patterns. " + CORR +
+         " Certificates are run with ascii_case_insensitive on all 256 bytes incl. '@[`{' and bytes >= 0x80.", "5 C11",
+         "Lean proof (complete byte table + comap lemma + C01/C02/C03 theorems) + certified bisimulation with case folding + differential"),
+ "C12": ("proof",
+         "C12_bytes / C12_with_stop / C12_log / C12_str: the transcription of try_replace_all_with(_bytes) equals the splice "
+         "specification (copy up to each match, append replacement, remainder verbatim; early stop; the closure receives exactly the "
+         "match and matched bytes; the str variant replaces exactly the matches with character-boundary bounds); C12_identity: untouched "
+         "bytes are preserved in order; C12_str_slices_ok: every &str slice index is a character boundary and indices never decrease "
+         "(no slice panic). UTF-8 validity of the result String is Rust's type invariant (trusted). Differential on the replace "
+         "routines incl. byte patterns splitting multi-byte characters, empty pattern, closure stop, wrong table length.", "5 C12",
+         "Lean proof of the splice loop against its specification + differential lines"),
+ "C20": ("other",
+         "PARTIAL. Proved (C20_*): the model's patterns_len, pattern_len, min/max length, match kind and supported start kinds "
+         "mirror the input, ids are list positions (all result theorems are stated with P[pid]). Explored, not proved: building never "
+         "panics - shape-diverse collections (no patterns, empty patterns, duplicates, all 256 byte values, long patterns, up to "
+         "5000 patterns x 300 bytes in the thorough tier) x option combinations are built under catch_unwind, metadata compared with "
+         "the model, and sampled patterns searched for. Build totality on arbitrary inputs concerns allocation and the three "
+         "encoders, which the model validates per instance (C04) rather than derives.", "5 C20",
+         "Lean proof of metadata + differential/exploration of builds"),
  "C01": ("proof",
          "C01_find_ll / C01_find_lf: for every pattern list (duplicates, nested patterns, the empty pattern), haystack and span, the "
          "search engine (transcription of try_find_fwd) on the ideal leftmost automaton returns THE leftmost-longest / leftmost-first "
